@@ -516,6 +516,7 @@ def main(argv=None):
     ap.add_argument("--props", default=None)
     ap.add_argument("--jobs", type=int, default=16)
     ap.add_argument("--out", default=os.path.join(VERIF, "selftest_report.json"))
+    ap.add_argument("--ids", default=None, help="comma-separated substrings of variant ids to run")
     a = ap.parse_args(argv)
     sel = set(a.props.split(",")) if a.props else None
     entries = list(M) + seed_entries()
@@ -535,6 +536,9 @@ def main(argv=None):
     if sel:
         entries = [e for e in entries if set(e[2]) & sel]
         entries = [(e[0], e[1], [p for p in e[2] if p in sel] if e[1] == "preserve" else e[2], e[3], e[4], e[5], e[6]) for e in entries]
+    if a.ids:
+        subs = a.ids.split(",")
+        entries = [e for e in entries if any(s in e[0] for s in subs)]
     t0 = time.time()
     evdir = tempfile.mkdtemp(prefix="indilint-selftest-ev-")
     try:
